@@ -281,3 +281,12 @@ META = {
     'reach_required': ['mutated', 'put_ok', 'put_refused', 'quiescent',
                        'probe_placed', 'probe_pending'],
 }
+
+
+def weight(name, spec):
+    if name.startswith('probe') and ('plain' in name or 'after' in name or
+                                     'lease' in name):
+        return 5
+    if 'down_to_frozen' in name:
+        return 3
+    return 1
